@@ -10,7 +10,7 @@ import ast
 from .. import AnalysisError, AnchorMissing
 from ..cfg import cfg_of
 from ..model import own_nodes
-from ..values import pattern, match, find, find_all, contains, show, subterms
+from ..values import pattern, match, find, find_all, contains, show, subterms, alias
 from .base import obligation, src, callee_name
 
 BH = 'elfi.client:BatchHandler'
@@ -526,7 +526,7 @@ def c04_f(ctx):
         if c.name in ('ModelBased',):
             continue
         for m in c.methods.values():
-            if m.name in ('_allow_submit', '_has_batches_to_submit', 'iterate', 'infer',
+            if m.name in (alias('_allow_submit'), alias('_has_batches_to_submit'), 'iterate', 'infer',
                           '__init__'):
                 continue
             if ctx.stores(m, 'self.state') or ctx.stores(m, 'self.state[_]') or \
@@ -541,7 +541,7 @@ def c04_f(ctx):
             mod = f.module.name
             if mod not in (SAMPLERS, 'elfi.methods.inference.parameter_inference'):
                 continue
-            if f.name in ('_allow_submit', '_has_batches_to_submit', 'iterate', 'infer'):
+            if f.name in (alias('_allow_submit'), alias('_has_batches_to_submit'), 'iterate', 'infer'):
                 continue
             if f not in closure:
                 closure.append(f)
@@ -562,7 +562,10 @@ def c04_f(ctx):
                 if isinstance(n, ast.Attribute) and n.attr == 'max_parallel_batches']
         if not uses:
             continue
-        ok = f.name in ('set_objective', '_set_rejection_round')
+        # initial estimate in the public set_objective, or handed on as a constructor keyword
+        ok = f.name == 'set_objective' or all(
+            isinstance(getattr(u, '_parent', None), ast.keyword) and
+            u._parent.arg == 'max_parallel_batches' for u in uses)
         ctx.check(ok, f, 'max_parallel_batches use',
                   'max_parallel_batches only as initial estimate / constructor argument',
                   '{} reads max_parallel_batches while updating state or objective'.format(
@@ -632,7 +635,7 @@ def c04_g(ctx):
         ok = match(v, pattern('np.random.RandomState(_a)')) is not None and \
             any(contains(v, p) for p in ('get_sub_seed(self.seed, _)', 'self.seed'))
         in_round_start = bool(ctx.cg.callers_of(m)) and all(
-            f.name in ('_init_new_round', '_set_rejection_round')
+            f.name in (alias('_init_new_round'), alias('_set_rejection_round'))
             for (f, n) in ctx.cg.callers_of(m))
         ctx.check(ok and in_round_start, m, 'round generator seeded per round',
                   'RandomState(seed or get_sub_seed(seed, round)), bound when a round starts',
